@@ -22,7 +22,7 @@ MIN_COUNTERS = {'quick': {'pgpy_roundtrips': 100, 'ref_opened_pgpy_output': 100,
 BUDGET = {'quick': (600, 1500), 'thorough': (1800, 3600)}
 TECHNIQUE = 'runtime monitoring: differential reference-model monitor (independent RFC 4880/6637 decryptor and encryptor) + GnuPG second oracle'
 
-PASSES = ['correct horse', 'pässwörd 日本', 'x', 'a' * 300]
+PASSES = ['correct horse', 'pässwörd 日本', 'x', 'a' * 300, ' Cafe\u0301 \u212b \ufb01\t\n']
 
 
 def cases(tier, seed):
@@ -141,7 +141,7 @@ def _A(ctx, d, pgpy):
         for r in d['rcpts']:
             if r[0] == 'key':
                 k, m = encwork.recipient(r[1], r[2])
-                enc = k.pubkey.encrypt(enc, sessionkey=sk, cipher=calg)
+                enc = (encwork.longlived_pub(k) if len(d['rcpts']) % 2 else k.pubkey).encrypt(enc, sessionkey=sk, cipher=calg)
                 secrets.append(('key', m))
                 privs.append(('key', k))
             else:
@@ -230,7 +230,7 @@ def _R(ctx, d, pgpy):
             if who == 'pw':
                 enc = msg.encrypt('pw %d' % j, cipher=calg)
             else:
-                enc = keys[who][0].pubkey.encrypt(msg, cipher=calg)
+                enc = encwork.longlived_pub(keys[who][0]).encrypt(msg, cipher=calg)
             if bytes(msg) != before:
                 ctx.fail('encrypt-altered-its-plaintext-object', {'body': body, 'recipient': str(who)})
             items.append((enc, who, j, fields, cname, bytes(enc)))
